@@ -156,7 +156,7 @@ def worker(run, job):
 
 
 def check(run, replay=None):
-    run.build(need_native=False)
+    run.build()
     if replay:
         print(open(replay).read()[:3000])
         return 1
@@ -164,7 +164,7 @@ def check(run, replay=None):
         run.inconclusive.append('data layout differs')
         return
     run.extra['explanation'] = __doc__
-    N = 2 if run.tier == 'quick' else 3
+    N = 2      # three generated moves with a symbolic stored move did not finish in 40 min (path split per candidate); stated bound
     jobs = [('AB', n) for n in range(1, N + 1)] + [('R', n) for n in range(1, N + 1)]
     run.bounds.append('one node with <= %d generated moves; arbitrary windows, depths <= 250, flags, child values and cache entry' % N)
     run.outside += ['depth-independence of real chess values beyond mate scores', 'hash-key collisions', 'mate distances reused at another distance from the root',
